@@ -28,6 +28,15 @@ Commands, each run on a fresh copy of every state:
  pull     i1..i4 into the tree
  uncommit API and command
 
+Criss-cross part: every history r0 -> {xa, xb} -> {xt = merge(xa, xb), xo =
+merge(xb, xa)} (two LCAs) with the text of one file chosen per revision from
+an 8-text alphabet (LCA1 in 2, LCA2 in 4, THIS tip in 3, OTHER tip in 5 texts)
+x 7 uncommitted working texts (including the LCA texts and the base text),
+`merge --force` of xo into the tree at xt.  Oracle: the working text survives
+byte-identically somewhere, or a file holds the clean merge3 of (B, working,
+OTHER) for a defensible base B: the common base text, or the single LCA text
+when the LCAs do not disagree (all readings accepted).
+
 Oracle.  U = files under the tree root (control directory excluded) whose bytes
 are a user token, that were not (re)written by the state's merge step and whose
 sha1 is not recorded in merge_modified().  After the command every (path,
@@ -575,6 +584,113 @@ def _work(chunk):
     return acc
 
 
+# ---- criss-cross merges (two LCAs) ------------------------------------------------------
+# History: r0 (base text) -> xa (LCA 1) and r0 -> xb (LCA 2); THIS tip xt = merge(xa, xb), OTHER tip xo = merge(xb, xa).
+# The tree is at xt with an uncommitted working text; `merge --force` of xo.  Texts of the one file `f` are drawn
+# from a small alphabet of three-line texts.
+XT = {
+    "b": b"l1\nl2\nl3\n",       # the base text
+    "a": b"A1\nl2\nl3\n",       # line 1 changed
+    "c": b"l1\nl2\nC3\n",       # line 3 changed
+    "ac": b"A1\nl2\nC3\n",      # both
+    "x": b"X1\nl2\nl3\n",       # another change of line 1
+    "xc": b"X1\nl2\nC3\n",
+    "u": b"l1\nU2\nl3\n",       # line 2 changed (only ever a working text)
+    "au": b"A1\nU2\nl3\n",
+}
+X_LCA1 = ("b", "a")
+X_LCA2 = ("b", "c", "a", "x")
+X_THIS = ("a", "c", "ac")
+X_OTHER = ("a", "c", "ac", "x", "xc")
+X_WORK = ("b", "a", "c", "ac", "xc", "u", "au")
+
+
+def criss_cross_items():
+    return [("X", t1, t2, tt, to) for t1 in X_LCA1 for t2 in X_LCA2 for tt in X_THIS for to in X_OTHER]
+
+
+def accepted_bases(tb, t1, t2):
+    """Texts that may serve as the base of the text merge (all readings): the common base; when at most one distinct
+    LCA text differs from it (the LCAs do not disagree), that LCA text as well."""
+    lcas = {t for t in (t1, t2) if t != tb}
+    out = {tb}
+    if len(lcas) <= 1:
+        out |= lcas
+    return out
+
+
+def _work_x(chunk):
+    from breezy import errors
+    acc = par.Acc()
+    with quiet_fd2():
+        W = os.path.join(workdir(), "x")
+        for _tag, k1, k2, kt, ko in chunk:
+            shutil.rmtree(W, ignore_errors=True)
+            os.makedirs(W)
+            m = world.make_branch("file://" + os.path.join(W, "xm") + "/", "2a")
+
+            def sp(k):
+                return {"f": world.F(b"f-id", XT[k]), "g": world.F(b"g-id", b"untouched\n")}
+            world.commit_spec(m, b"r0", [], sp("b"), timestamp=TS)
+            world.commit_spec(m, b"xa", [b"r0"], sp(k1), timestamp=TS + 1)
+            world.commit_spec(m, b"xb", [b"r0"], sp(k2), timestamp=TS + 2)
+            world.commit_spec(m, b"xo", [b"xb", b"xa"], sp(ko), timestamp=TS + 3)
+            world.commit_spec(m, b"xt", [b"xa", b"xb"], sp(kt), timestamp=TS + 4)
+            m = open_branch(W, "xm")
+            if m.last_revision() != b"xt":
+                raise HarnessError("criss-cross world: tip is %r" % m.last_revision())
+            m.controldir.sprout("file://" + os.path.join(W, "xo") + "/", revision_id=b"xo", create_tree_if_local=False)
+            m.create_checkout(os.path.join(W, "xt"), lightweight=True)
+            shutil.copytree(os.path.join(W, "xt"), os.path.join(W, "xt.tpl"), symlinks=True)
+            root = os.path.join(W, "xt")
+            acc.count("criss_cross_histories")
+            for kw in X_WORK:
+                det = {"criss_cross": {"base": "b", "lca1": k1, "lca2": k2, "this_committed": kt, "other": ko, "working": kw},
+                       "texts": {k: XT[k] for k in sorted({"b", k1, k2, kt, ko, kw})}, "user_ops": ["criss-cross"],
+                       "command": ["merge", "xo", "force"]}
+                shutil.rmtree(root, ignore_errors=True)
+                shutil.copytree(os.path.join(W, "xt.tpl"), root, symlinks=True)
+                tw = XT[kw]
+                with open(os.path.join(root, "f"), "wb") as f:
+                    f.write(tw)
+                from breezy.workingtree import WorkingTree
+                t = WorkingTree.open(root)
+                acc.n += 1
+                try:
+                    with contextlib.redirect_stdout(io.StringIO()), contextlib.redirect_stderr(io.StringIO()):
+                        t.merge_from_branch(open_branch(W, "xo"), force=True)
+                except BaseException as e:  # noqa
+                    if isinstance(e, (KeyboardInterrupt, SystemExit, HarnessError)):
+                        raise
+                    if isinstance(e, errors.BzrError):
+                        acc.outcomes.add(("criss-cross", type(e).__name__))
+                        acc.count("refusals")
+                    else:
+                        acc.violation("merge:%s:%s:criss-cross" % (type(e).__name__, frame(e.__traceback__)), dict(det, error=str(e)[:300]))
+                post = files_of(root)
+                acc.outcomes.add(("criss-cross", tuple(sorted(post)), post.get("f") == tw))
+                if kw == kt:
+                    continue            # no uncommitted edit
+                acc.nt(("X", k1, k2, kt, ko, kw))
+                acc.count("user_contents_checked")
+                contents = set(post.values())
+                if tw in contents:
+                    continue
+                ok = False
+                for base in accepted_bases(XT["b"], XT[k1], XT[k2]):
+                    cm = clean_merge(base, tw, XT[ko])
+                    if cm is not None and cm in contents:
+                        ok = True
+                if ok:
+                    acc.count("kept_as_clean_merge")
+                    continue
+                acc.violation("merge:user-content-lost:versioned-file:criss-cross",
+                              dict(det, lost_path="f", lost_content=tw, files_after={k: v for k, v in sorted(post.items())}))
+                acc.sample(det) if False else None
+        shutil.rmtree(W, ignore_errors=True)
+    return acc
+
+
 def sequences(depth):
     for k in range(0, depth + 1):
         for s in itertools.product(OPS, repeat=k):
@@ -593,9 +709,13 @@ def run(ctx):
     if (a0.n, a0.violations, sorted(a0.outcomes, key=repr)) != (a1.n, a1.violations, sorted(a1.outcomes, key=repr)):
         raise HarnessError("C12 not deterministic")
     acc = par.merge(par.pmap(_work, items, seed=ctx.seed, chunks_per_job=8))
+    xitems = criss_cross_items()
+    accx = par.merge(par.pmap(_work_x, xitems, seed=ctx.seed, chunks_per_job=4))
+    n_main = acc.n
+    acc.merge(accx)
     best = {}
     for sig, d in acc.violations:
-        k = (len(d["user_ops"]), repr(d["user_ops"]), repr(d["command"]))
+        k = (len(d["user_ops"]), repr(d["user_ops"]), repr(d["command"]), repr(d.get("criss_cross")))
         if sig not in best or k < best[sig][0]:
             best[sig] = (k, d)
     for sig in sorted(best):
@@ -611,6 +731,9 @@ def run(ctx):
         "traces_validated_against_impl": acc.n,
         "invalid_sequences": acc.counters.get("invalid_sequences", 0),
         "max_user_ops": depth,
+        "criss_cross_histories": acc.counters.get("criss_cross_histories", 0),
+        "criss_cross_merges": accx.n,
+        "state_command_transitions": n_main,
         "user_contents_checked": acc.counters.get("user_contents_checked", 0),
         "kept_as_clean_merge": acc.counters.get("kept_as_clean_merge", 0),
         "refusals": acc.counters.get("refusals", 0),
